@@ -35,6 +35,11 @@ def text_content(small=False):
     return st.one_of(base, base, GC.mixed_text(10, newlines=True), balanced, edge, st.sampled_from(["", "x", GC.WIDE[0], "a" * 30, GC.WIDE[1] * 12, "a b c d e f g h i j"]))
 
 
+def title_content():
+    """Titles: short texts, sometimes with a tab (titles are given as Text objects)."""
+    return st.one_of(text_content(True).filter(lambda s: s.strip() != ""), st.sampled_from(["Name\tValue", "a\tb", "T", "a longer title than most"]))
+
+
 def text_node(mode, small=False):
     over = ["fold", "crop", "ellipsis"] + (["ignore"] if mode == "any" else [])
     return st.builds(
@@ -72,7 +77,8 @@ def table_node(child, mode, max_cols=4, max_rows=4):
             "show_header": draw(st.booleans()), "show_footer": draw(st.booleans()), "show_edge": draw(st.booleans()), "show_lines": draw(st.booleans()),
             "leading": draw(st.sampled_from([0, 0, 0, 1, 2, 3])), "padding": draw(pad_strategy()), "pad_edge": draw(st.booleans()),
             "collapse_padding": draw(st.booleans()), "expand": draw(st.booleans()),
-            "title": draw(st.one_of(st.none(), st.none(), text_content(True))), "caption": draw(st.one_of(st.none(), st.none(), text_content(True))),
+            "title": draw(st.one_of(st.none(), st.none(), text_content(True), title_content())), "caption": draw(st.one_of(st.none(), st.none(), text_content(True))),
+            "title_text_justify": draw(st.sampled_from([None, None, "left", "center", "right"])),
         }
         if mode == "any":
             node["width"] = draw(st.one_of(st.none(), st.none(), st.integers(1, 60)))
@@ -92,7 +98,7 @@ def node(depth, mode, max_depth=4, allow_pbar=False, allow_cast=True):
     render their child line by line (table, panel, padding, columns, tree) - see known finding F3. allow_cast: __rich__ is resolved one level only."""
     leaf = st.one_of(
         text_node(mode), text_node(mode),
-        st.builds(lambda t, ch, al: {"k": "rule", "title": t, "characters": ch, "align": al}, st.one_of(st.just(""), text_content(True)), st.sampled_from(["─", "-", "=-", GC.WIDE[0], "━"]), st.sampled_from(["left", "center", "right"])),
+        st.builds(lambda t, ch, al: {"k": "rule", "title": t, "characters": ch, "align": al}, st.one_of(st.just(""), text_content(True), title_content()), st.sampled_from(["─", "-", "=-", GC.WIDE[0], "━"]), st.sampled_from(["left", "center", "right"])),
         st.builds(lambda size, b, e, w: {"k": "bar", "size": size, "begin": min(b, e), "end": max(b, e), "width": w}, st.integers(1, 100), st.integers(0, 100), st.integers(0, 100), st.one_of(st.none(), st.integers(1, 60)) if mode == "any" else st.none()),
     )
     if allow_pbar:
@@ -105,9 +111,9 @@ def node(depth, mode, max_depth=4, allow_pbar=False, allow_cast=True):
     small_child = st.one_of(text_node(mode, True), text_node(mode, True), line_child)
     containers = st.one_of(
         table_node(small_child, mode),
-        st.builds(lambda c, b, t, ta, ex, p, w: {"k": "panel", "child": c, "box": b, "title": t, "title_align": ta, "expand": ex, "padding": p, "width": w},
-                  line_child, st.sampled_from(BOXES), st.one_of(st.none(), text_content(True).filter(lambda s: s.strip() != "")), st.sampled_from(["left", "center", "right"]), st.booleans(), pad_strategy(),
-                  st.one_of(st.none(), st.none(), st.integers(1, 60)) if mode == "any" else st.none()),
+        st.builds(lambda c, b, t, ta, ex, p, w, tj: {"k": "panel", "child": c, "box": b, "title": t, "title_align": ta, "expand": ex, "padding": p, "width": w, "title_justify": tj},
+                  line_child, st.sampled_from(BOXES), st.one_of(st.none(), title_content()), st.sampled_from(["left", "center", "right"]), st.booleans(), pad_strategy(),
+                  st.one_of(st.none(), st.none(), st.integers(1, 60)) if mode == "any" else st.none(), st.sampled_from([None, None, "left", "center", "right", "full"])),
         st.builds(lambda c, p, ex: {"k": "padding", "child": c, "pad": p, "expand": ex}, line_child, pad_strategy(), st.booleans()),
         st.builds(lambda c, a, p, w: {"k": "align", "child": c, "align": a, "pad": p, "width": w}, child, st.sampled_from(["left", "center", "right"]), st.booleans(), st.one_of(st.none(), st.integers(1, 60)) if mode == "any" else st.none()),
         st.builds(lambda c, w: {"k": "constrain", "child": c, "width": w}, child, st.one_of(st.none(), st.integers(1, 80)) if mode == "any" else st.none()),
@@ -166,7 +172,7 @@ def build(n):
         t = Table(
             box=getattr(rbox, n["box"]) if n["box"] else None, show_header=n["show_header"], show_footer=n["show_footer"], show_edge=n["show_edge"],
             show_lines=n["show_lines"], leading=n["leading"], padding=tuple(n["padding"]), pad_edge=n["pad_edge"], collapse_padding=n["collapse_padding"],
-            expand=n["expand"], title=Text(n["title"]) if n["title"] is not None else None, caption=Text(n["caption"]) if n["caption"] is not None else None,
+            expand=n["expand"], title=Text(n["title"], justify=n.get("title_text_justify")) if n["title"] is not None else None, caption=Text(n["caption"]) if n["caption"] is not None else None,
             width=n.get("width"), min_width=n.get("min_width"),
         )
         for c in n["cols"]:
@@ -176,7 +182,7 @@ def build(n):
             t.add_row(*[build(c) for c in r["cells"]], end_section=r["end_section"])
         return t
     if k == "panel":
-        return Panel(build(n["child"]), getattr(rbox, n["box"]), title=Text(n["title"]) if n["title"] is not None else None, title_align=n["title_align"], expand=n["expand"],
+        return Panel(build(n["child"]), getattr(rbox, n["box"]), title=Text(n["title"], justify=n.get("title_justify")) if n["title"] is not None else None, title_align=n["title_align"], expand=n["expand"],
                      padding=tuple(n["padding"]), width=n["width"])
     if k == "padding":
         return Padding(build(n["child"]), tuple(n["pad"]), expand=n["expand"])
